@@ -10,4 +10,39 @@ CLAIMS = {
                        "(c) Err of the decomposition never reaches Ok in sample, settings are the caller's. Each rule instance is an obligation.",
         "assumptions": ["PartialOrd/PartialEq of the user's T follow IEEE semantics on NaN", "NaN propagates through +,*,sqrt of T"],
     },
+    "C12": {
+        "level": "other",
+        "explanation": "Decides the structural clauses of C12 on the resolved program: (a) abstract interpretation of the IEEE class "
+                       "{nan,-inf,neg,zero,pos,+inf} of the f64 result along every CFG path of inverse_gamma_lr shows Ok(v) is reachable only "
+                       "with class pos (finite, >0, not NaN) — 'failures are errors, not values'; (b) the shape argument in sample is the "
+                       "table's dod, the probability one hypercube read, and the Ok payload is the lambda used by the momentum map and "
+                       "reported in metadata; (c) Err never reaches an Ok sample. NOT decided: the 2e-8 accuracy, monotonicity and "
+                       "panic-freedom inside statrs (value-level).",
+        "assumptions": ["f64 comparison/is_finite/is_nan semantics per IEEE-754", "from_f64 of the user's T preserves sign/finite-ness"],
+    },
+    "C06": {
+        "level": "other",
+        "explanation": "Decides the structural clauses of C06 for every table, subgraph and scalar type: (a) TOTALITY — on the CFG of the "
+                       "cumulative scan, from the loop-exhaustion edge no panic is reachable except behind the failing edge of a `uniform < one()` "
+                       "range check or evidence of zero iterations, so no u in [0,1) can fall through to the panic whatever the rounding of the "
+                       "running sum; (b) the scan enumerates the subgraph's edges ascending, returns on the TRUE edge of cum_sum >= uniform and "
+                       "returns (edge, subgraph without that edge); (c) the single-edge shortcut reads no coordinate and removes the sole edge, "
+                       "the multi-edge branch reads exactly one. NOT decided: that the J-ratios are the tropical edge distribution (C03/C04), "
+                       "index-bounds panics.",
+        "assumptions": ["PartialOrd of T is a total order on non-NaN values", "table[g] index panics are out of scope (value-level)"],
+    },
 }
+
+NOT_APPLICABLE = {
+    "C01": "integral identity over the whole hypercube (change-of-variables theorem about the composition of all stages): no clause is visible "
+           "in code shape beyond the code-vs-formula clauses owned by C04/C08-C11/C13; a numeric test would not be static analysis",
+    "C02": "two-sided inequalities between polynomial VALUES at every parameter point (spanning-tree counts, coefficients of F): a theorem "
+           "about runtime values, nothing structural implies it; the bookkeeping that feeds it is decided under C07/C11",
+}
+
+TECHNIQUE = {
+    "C16": "static analysis: MIR CFG must-pass-edge / never-reaches rules with value-root identity and NaN-polarity of ordered comparisons",
+    "C12": "static analysis: abstract interpretation of IEEE value classes over the MIR CFG + argument provenance (value roots) + error-discipline rule",
+    "C06": "static analysis: MIR CFG reachability from the loop-exhaustion edge to panics modulo justified guard edges; control dependence of the return",
+}
+DESIGN_REF = {}
